@@ -22,6 +22,15 @@ Definition de_zig_zag (k : ikind) (n : Z) : Z :=
   | _ => n
   end.
 
+(* SeqAccess::size_hint: match flavor.size_hint() { Some(size) if size < self.len => None,
+   _ => Some(self.len) }; MapAccess::size_hint is Some(self.len) unconditionally *)
+Definition seq_size_hint (flavor_hint : option N) (len : N) : option N :=
+  match flavor_hint with
+  | Some size => if cmp_eval seq_hint_cmp size len then None else Some len
+  | None => Some len
+  end.
+Definition map_size_hint (len : N) : option N := Some len.
+
 Section De.
   Context {St : Type}.
   Variable pop : St -> res (byte * St).
